@@ -63,7 +63,20 @@ func (lifecycleScn) Generate(g *simrt.Rng, tier string) any {
 	for i := 0; i < k; i++ {
 		p.Listeners = append(p.Listeners, LcListener{Side: simrt.Pick(g, "client", "client", "server"), RegUs: us(), Unsub: g.Bool(0.4), UnsubUs: us(), Via: simrt.Pick(g, "conn", "context")})
 	}
-	p.Shutdown = simrt.Pick(g, "client-close", "client-close", "server-close", "rst", "fin")
+	p.Shutdown = simrt.Pick(g, "client-close", "client-close", "server-close", "rst", "fin", "halfclose-stalled")
+	if p.Shutdown == "halfclose-stalled" {
+		// back-pressure: the peer has stopped reading, so the server's send loop sits in a socket write
+		p.Net.BufCap = simrt.Pick(g, 16, 64, 1024)
+		p.Opt.WriteQueue = simrt.Pick(g, 16, 64, 4096)
+		for i := range p.Channels {
+			if g.Bool(0.7) {
+				p.Channels[i].Handler = "stream"
+			}
+		}
+		if len(p.Channels) == 0 {
+			p.Channels = append(p.Channels, LcChan{Handler: "stream"})
+		}
+	}
 	p.ShutUs = us()
 	return p
 }
@@ -241,6 +254,16 @@ func (r *lcRun) handler(ctx mpx.Context, ch mpx.Channel) status.Status {
 				break
 			}
 		}
+	case "stream":
+		// streams until something stops it
+		for k := 0; ; k++ {
+			if st := ch.Send(ctx, payload(r.p.Nonce, h.ch, 1, 0, k, 200)); !st.OK() {
+				break
+			}
+		}
+		if !c.endEvent {
+			c.ctxEarly = true
+		}
 	case "wait":
 		// leaves only when its context is cancelled: if that never happens the run deadlocks
 		simrt.Select(0, ctx.Wait())
@@ -359,6 +382,18 @@ func (r *lcRun) main() {
 			r.markEnd()
 			if prs := r.net.Pairs(); len(prs) > 0 {
 				prs[0].Fin("harness")
+			}
+		case "halfclose-stalled":
+			// the client stops reading (server->client delivery stalls, the server's writes back up),
+			// a little later its sending direction ends: the server reads EOF with its send loop blocked
+			if prs := r.net.Pairs(); len(prs) > 0 {
+				prs[0].Stall(1, time.Hour)
+				hSleep(20 * time.Millisecond)
+				r.markEnd()
+				prs[0].HalfClose(0)
+				// the server must close the connection on its own; the client side is closed afterwards
+				hSleep(5 * time.Second)
+				cli.Close()
 			}
 		}
 	})
